@@ -55,7 +55,7 @@ def generate(seed, index, tier):
     cfg['ops']['DeleteModel'] = 0
     cfg['ops']['ChangeMeta'] = 6
     cfg['index_conditions'] = True
-    cfg['q_wrap'] = rng.random() < 0.5
+    cfg['q_wrap'] = rng.random() < 0.6
     cfg['q_conn1'] = rng.random() < 0.5
     cfg['expressions'] = rng.random() < 0.5
     cfg['deferrable'] = rng.random() < 0.5
@@ -66,6 +66,32 @@ def generate(seed, index, tier):
     scn = scenarios.single_step(rng, cfg=cfg, two_apps=rng.random() < 0.2)
     scn['h1'], scn['h2'] = rng.sample([0, 1, 2, 3], 2)
     return scn
+
+
+def wrap_in_multi(obj):
+    """True if some Q spec has a 'wrap' node as a child of an and/or/xor
+    node (the shape the hint text flattens)."""
+    found = [False]
+
+    def walk(n, parent):
+        if isinstance(n, dict):
+            if n.get('q') == 'wrap' and parent in ('and', 'or', 'xor'):
+                found[0] = True
+            if 'q' in n:
+                c = n.get('c')
+                if isinstance(c, list):
+                    for x in c:
+                        walk(x, n['q'])
+                elif c is not None:
+                    walk(c, n['q'])
+            else:
+                for v in n.values():
+                    walk(v, None)
+        elif isinstance(n, list):
+            for x in n:
+                walk(x, None)
+    walk(obj, None)
+    return found[0]
 
 
 def value_shapes(text):
@@ -133,7 +159,7 @@ def execute(scn):
         res['nontrivial'] = True
         detail = dict(kinds=kinds, shapes=shapes, ops_str=' '.join(tags),
                       h1=scn['h1'], h2=scn['h2'],
-                      q_wrap='"q": "wrap"' in json.dumps(
+                      q_wrap=wrap_in_multi(
                           [sts[1], P['apps']['va']['steps']]))
         for s in shapes:
             stats['shape_' + s] = 1
@@ -166,13 +192,11 @@ def execute(scn):
             return res
         want = file_mutations(text)
         if want is not None and loaded.get('mutations') != want:
-            diff = [(x, y) for x, y in zip(want, loaded.get('mutations')
-                                           or []) if x != y][:2]
-            viols.append(violation('C13.mutations_differ',
-                                   diff=[list(d) for d in diff],
-                                   n_file=len(want),
-                                   n_loaded=len(loaded.get('mutations')
-                                                or []), **detail))
+            # textual round trip only: Django squashes nested Q objects of
+            # one connector, so str() of the loaded mutation may differ from
+            # the file text without any difference in effect.  The verdict
+            # is taken from the effect (preview SQL, outcome, signature).
+            stats['loaded_text_differs'] = 1
         # ---- B: preview ------------------------------------------------------
         b_sql = ws.run('evolve', {'compile_sql': True}, hashseed=scn['h2'])
         if a_sql.status == 'ok' and b_sql.status == 'ok':
